@@ -133,6 +133,8 @@ def t2_memory(npages, ndef=b'', cc_ro=False, extra_tlv=b'', size_byte=None):
     mem = bytearray(4 * npages)
     mem[0:10] = bytes.fromhex('04517CA1E1ED25800A48')  # uid0-2 bcc0 uid3-6 bcc1 int
     data_area = 4 * npages - 16
+    if npages > 16:
+        data_area -= 8            # room for the dynamic lock bytes behind the data area
     if size_byte is None:
         size_byte = min(data_area // 8, 255)
     mem[12:16] = bytes([0xE1, 0x10, size_byte, 0x0F if cc_ro else 0x00])
